@@ -121,9 +121,11 @@ impl<T: Value> ErasedObserver for InternalObserver<T> {
             Disallowed | Unlinked => Ok(()),
             Created | InUse => {
                 // delete from the list in either case
-                self.on_update_handlers.borrow_mut().remove(&token);
+                let removed = self.on_update_handlers.borrow_mut().remove(&token).is_some();
 
                 match self.state.get() {
+                    // the token was already unsubscribed: nothing left to account for
+                    _ if !removed => Ok(()),
                     Created => {
                         // No need to do a big cleanup. We haven't done the batch add yet in state.rs.
                         Ok(())
